@@ -51,6 +51,16 @@ NOTES = {
  "C13-e": "escaped at first (the mini regex grammar had no brace quantifiers); `{n}`, `{n,}`, `{n,m}` added to the independent matcher and the pattern generator",
  "C17-e": "escaped at first (parameter files held only scalars on which all loaders agree); stage 'raw-scalars': 26 disputed spellings in a parameter file and in the data vs the concatenated text",
  "C19-e": "escaped at first (mutations only used values foreign to the whole template); every other mutation now borrows a value of another property of the same type",
+ "C04-f": "escaped at first (one capture variable per map); a second capture variable over the same map added to the capture idiom",
+ "C05-f": "escaped at first (no two property values that compare equal as numbers but differ as text); numeric ties (`Sz` / `Big` properties) added to the rulegen templates",
+ "C06-f": "escaped at first (no rule name defined twice in a tested file); a doubly defined rule `d` with expectations that mismatch in one of three ways added",
+ "C07-f": "escaped at first (rules files of one run always had distinct base names); a third of the multi-file cases use <dir-i>/rules.guard; the sub-agent also reported F58",
+ "C08-f": "escaped at first (key filters only had literal right-hand sides); `[ keys <op> %var ]` added to the generator (variable resolving to no / one / several values) and four shapes to the ill-typed table",
+ "C11-f": "escaped at first (no tagged scalar in key position among the negatives); five tagged-key texts added",
+ "C12-f": "escaped at first (JUnit was only read by C07, one data file at a time for the counters per suite); C12 compares each <testsuite> of a batch with the one of validating that file alone, and the totals with the sums",
+ "C14-f": "escaped at first (comments were only placed between rule-body lines); a line break with a comment may now follow `[` / `name |` and precede `]` in filters, key filters and key captures, and comment lines separate filter clauses",
+ "C15-f": "escaped at first (abstraction sites were clauses of bodies only); literals in the condition of an inner `when` block are abstracted to rule / file level, optionally with a `let` of the same name inside the guarded block",
+ "C18-f": "escaped at first (substring offsets were literals, and the grammar has no negative float literal); a third of the substring calls take their offsets from the document (negative, whole, huge floats; i64::MIN)",
  "C09-a": "caught through the file-status law; C09 now also compares rule names with the generated programs",
 }
 rows = []
